@@ -1793,7 +1793,9 @@ class SessionCache(object):
             provider = cache.database.provider
             try: provider.set_transaction_mode(connection, cache)  # can set cache.in_transaction
             except Exception as e: connection = cache.reconnect(e)
-        if not cache.noflush_counter and cache.modified: cache.flush()
+        if not cache.noflush_counter and cache.modified:
+            cache.flush()
+            connection = cache.connection  # flush() may have reconnected after a connection failure
         return connection
     def flush_and_commit(cache):
         try: cache.flush()
